@@ -26,7 +26,7 @@ fn info(tier: Tier) -> CheckInfo {
         id: "C11",
         level: "exploration",
         rule: format!(
-            "Tier {}: a universe of 8 nodes on public IPs (secure+insecure on one IP; three secure ids on one IP, two sharing the 21-bit prefix; two insecure nodes with EQUAL ids on different IPs; a third insecure id sharing its first 17 bytes with them; ids tying with the target on the first differing byte; an id equal to the target). Every subset in every insertion order (sum of |s|! = 109601 sequences; subsets of up to 5 nodes = 8801 sequences in quick) is pushed through ClosestNodes::add for 4 targets and through RoutingTable::add for 3 own ids x 4 targets. For K-truncation: 21..24 distinct-IP nodes (mixed secure/insecure) under identity, reverse, every rotation and every adjacent transposition. take_until_secure over size-estimate in {{0,1,20,1000,usize::MAX}} x subnets in {{0,1,5,64,usize::MAX}}. Oracle: brute-force sort by (secure first, XOR distance) and the same-IP admission rule replayed in insertion order. Distinct = distinct (insertion sequence, target[, own id]).",
+            "Tier {}: a universe of 8 nodes on public IPs (secure+insecure on one IP; three secure ids on one IP, two sharing the 21-bit prefix; two insecure nodes with EQUAL ids on different IPs; a third insecure id sharing its first 17 bytes with them; ids tying with the target on the first differing byte; an id equal to the target). Every subset in every insertion order (sum of |s|! = 109601 sequences; subsets of up to 5 nodes = 8801 sequences in quick) is pushed through ClosestNodes::add for 4 targets and through RoutingTable::add for 3 own ids x 4 targets. For K-truncation: 21..24 distinct-IP nodes (mixed secure/insecure) under identity, reverse, every rotation and every adjacent transposition. A 246-node set (12 full buckets of insecure nodes + 6 secure ones) in index order, reversed and under 6 rotations, through ClosestNodes and a table, for 4 targets. take_until_secure over size-estimate in {{0,1,20,1000,usize::MAX}} x subnets in {{0,1,5,64,usize::MAX}}. Oracle: brute-force sort by (secure first, XOR distance) and the same-IP admission rule replayed in insertion order. Distinct = distinct (insertion sequence, target[, own id]).",
             tier.name()
         ),
         assumptions: vec![
@@ -366,6 +366,49 @@ fn check_truncation(out: &mut Partial) {
     }
 }
 
+/// More than 200 nodes (the accumulator's initial capacity, ten full buckets): 12 buckets of 20
+/// insecure nodes each on distinct IPs plus 6 secure ones, inserted in index order, reversed
+/// (the closest arrive last) and under rotations, through `ClosestNodes` and through a table.
+fn check_large(out: &mut Partial) {
+    let own: Id20 = [0xAA; 20];
+    let mut u: Vec<N> = vec![];
+    for b in 0..12usize {
+        for j in 0..20usize {
+            let i = u.len();
+            let mut id = own;
+            let p = 50 + b; // first differing bit
+            id[p / 8] ^= 0x80 >> (p % 8);
+            id[18] = b as u8 ^ 0x5c;
+            id[19] = (j * 3 + 1) as u8;
+            u.push(N { id, addr: SocketAddrV4::new(Ipv4Addr::new(60 + (i / 200) as u8, (i % 200) as u8, 7, 7), 6000 + i as u16) });
+        }
+    }
+    for i in 0..6usize {
+        let ip = Ipv4Addr::new(70, 1, 1, 1 + i as u8);
+        let mut fill = [0x3Cu8; 20];
+        fill[5] = i as u8;
+        u.push(N { id: bep42_id(ip, &fill, i as u8), addr: SocketAddrV4::new(ip, 7000 + i as u16) });
+    }
+    let n = u.len();
+    let mut near = own;
+    near[19] ^= 0x01;
+    let targets = [near, [0x55u8; 20], u[230].id, u[5].id];
+    let base: Vec<usize> = (0..n).collect();
+    let mut orders: Vec<Vec<usize>> = vec![base.clone(), base.iter().rev().cloned().collect()];
+    for r in [1usize, 20, 199, 200, 201, 239] {
+        let mut o = base.clone();
+        o.rotate_left(r);
+        orders.push(o);
+    }
+    for order in &orders {
+        for t in &targets {
+            check_closest_nodes(order, &u, t, out);
+            out.add("large_sets", 1);
+        }
+        check_table(order, &u, &own, &targets, out);
+    }
+}
+
 fn run(tier: Tier, _s: usize, _n: usize, _seed: u64) -> Partial {
     let chunks = super::cores();
     let (u, targets) = universe();
@@ -394,6 +437,9 @@ fn run(tier: Tier, _s: usize, _n: usize, _seed: u64) -> Partial {
         }
         if chunk == 0 {
             check_truncation(&mut out);
+        }
+        if chunk == 1 % chunks {
+            check_large(&mut out);
         }
         out
     });
